@@ -249,7 +249,7 @@ def model_ops(ops):
         elif op[0] in ('link', 'unlink'): out.append([op[0], op[1], op[2]])
         elif op[0] == 'createT_link': out.append(['create']); out.append(['linkNewItem', op[1]])
         elif op[0] == 'setref': out.append(['modify', op[1]])
-        elif op[0] == 'query': out.append(['read', 0])          # only valid inside before_* hooks (flush disabled): see check_case
+        elif op[0] == 'query': out.append(['query'])
     return out
 
 
@@ -556,15 +556,27 @@ def check_case(ctx, W, case, pending):
         prev = ph
     script = [{'before': e['phase'] == 'before', 'kind': e['kind'], 'obj': e['obj'],
                'calls': [model_ops(c) for c in e['calls']], 'rest': model_ops(e['rest'])} for e in case['script']]
-    if any(op[0] == 'query' for e in case['script'] if e['phase'] == 'after' for c in (e['calls'] + [e['rest']]) for op in c):
-        # a query inside an after_* hook flushes recursively (nested rounds): not in the model — these cases are judged by the oracle only
-        ctx.count('oracle-only:query-inside-after-hook'); return
-    if any(op[0] == 'query' for e in case['script'] for c in (e['calls'] + [e['rest']]) for op in c): ctx.count('query-inside-before-hook')
+    if nested and case['action'] == 'entity_flush':
+        # obj.flush() with a query inside an after_* hook: the recursive flush is modelled for cache.flush() only — oracle only here
+        ctx.count('oracle-only:entity_flush-with-query-inside-after-hook'); return
+    if nested: ctx.count('nested:query-inside-after-hook')
+    if any(op[0] == 'query' for e in case['script'] if e['phase'] == 'before' for c in (e['calls'] + [e['rest']]) for op in c): ctx.count('query-inside-before-hook')
+    # the statement order of every round, keyed by the number of trace events when its save loop starts
+    clog = canon_log(log); orders = []; i = 0
+    while i < len(clog):
+        if clog[i][0] == 'before':
+            while i < len(clog) and clog[i][0] == 'before': i += 1
+            j = i; obs = []
+            while j < len(clog) and clog[j][0] in ('stmt', 'linkDel', 'linkIns'):
+                if clog[j][0] == 'stmt': obs.append(clog[j][2])
+                j += 1
+            orders.append([i, obs])
+        else: i += 1
     if case['action'] == 'entity_flush':
         req = {'op': 'entityFlush', 'state': res['init_state'], 'script': script, 'bfuel': 100000, 'obj': res['target'],
                'refs': res['refs'], 'saved': [e[2] for e in stmts]}
     else:
-        req = {'op': 'flush', 'state': res['init_state'], 'script': script, 'bfuel': 100000, 'rounds': rounds}
+        req = {'op': 'flushN', 'state': res['init_state'], 'script': script, 'bfuel': 100000, 'orders': orders, 'depth': 40}
     pending.append((req, res, inp))
 
 
